@@ -63,7 +63,11 @@ func c01Child() {
 	for _, s := range labServices {
 		body := labBody(s)
 		fmt.Fprintf(&b, "[service.%s]\ntype = %s\n%s\n", s.name, q(s.typ), body)
-		fmt.Fprintf(&b, "[[port]]\nport = %s\nservices = [%s]\n", q(fmt.Sprintf("%s/127.0.0.1:%d", s.proto, c01PortBase+s.port)), q(s.name))
+		svcs := q(s.name)
+		if s.name == "shared" {
+			svcs = q("cwmp") + ", " + q("shared")
+		}
+		fmt.Fprintf(&b, "[[port]]\nport = %s\nservices = [%s]\n", q(fmt.Sprintf("%s/127.0.0.1:%d", s.proto, c01PortBase+s.port)), svcs)
 	}
 	fmt.Fprintf(&b, "[service.stat]\ntype = \"verif-stat\"\n[[port]]\nport = %s\nservices = [\"stat\"]\n", q(fmt.Sprintf("tcp/127.0.0.1:%d", c01PortBase+9999)))
 	cfg := &config.Config{}
@@ -755,9 +759,26 @@ func genC01(tier string, seed uint64) {
 
 // c01Inputs: the legal-but-unusual sequences named by the property, and relatives
 func c01Inputs(svc string, r *Rng) [][]byte {
+	if svc == "shared" {
+		svc = "http"
+	}
 	svc = strings.TrimSuffix(svc, "-tcp") // the stream twin of a datagram service gets the same inputs
 	var ins [][]byte
 	switch svc {
+	case "https":
+		// complete TLS 1.2 ClientHellos (the server goes on to choose a certificate) with server names of every kind
+		for _, name := range []string{"", "example.com", "www.ex\xe4mple.com", "ex\xc3\xa4mple.org", strings.Repeat("a", 255), strings.Repeat("b.", 120) + "c", "a\x00b.example", "10.0.0.1", "example.com.", " ", "*.example.com", "xn--exmple-cua.com", "UPPER.Example.COM", "-", "a..b"} {
+			h := hello{version: 0x0303, ciphers: []int{0xc02f, 0xc030, 0x009c, 0x002f, 0x0035, 0x000a},
+				exts: []ext{{10, groupsBody([]int{29, 23, 24})}, {11, pointsBody([]int{0})}, {13, []byte{0, 8, 4, 1, 5, 1, 6, 1, 2, 1}}}}
+			if name != "" {
+				h.exts = append([]ext{{0, sniBody(name)}}, h.exts...)
+			}
+			var b []byte
+			for _, rec := range records(h.encode(), 0) {
+				b = append(b, rec...)
+			}
+			ins = append(ins, b)
+		}
 	case "ftp":
 		ins = append(ins, []byte("USER anonymous\r\nPASS anonymous\r\nCWD /\r\nCWD ..\r\nCDUP\r\nPWD\r\n"), []byte("USER anonymous\r\nPASS anonymous\r\nLIST\r\nRETR x\r\nSTOR y\r\nNLST\r\nMLSD\r\n"),
 			[]byte("USER anonymous\r\nPASS anonymous\r\nPORT 127,0,0,1,0,1\r\nLIST\r\n"), []byte("USER anonymous\r\nPASS anonymous\r\nREST 5\r\nRNFR a\r\nRNTO b\r\nSIZE a\r\nMDTM a\r\nDELE a\r\nRMD a\r\nMKD a\r\nAPPE a\r\n"),
